@@ -162,11 +162,16 @@ class Summary:
             n = cfg.node_of(cs.node)
             if n is None:
                 continue
+            wrote_in: Optional[str] = None
             for t in cs.targets:
                 inner = self.write_then_raise(t, stack + (q,))
                 if inner is not None and res is None and not handlers_around(fi, cs.node):
                     res = inner
+                # a constructor call runs __new__ and then __init__: a name registered by the first is there when the second rejects
+                if cs.external and cs.external.startswith("ctor:") and wrote_in and self.may_raise(t) and res is None and not handlers_around(fi, cs.node):
+                    res = (wrote_in, cs.node, t, cs.node)
                 if self.may_write(t):
+                    wrote_in = wrote_in or t
                     w_nodes.setdefault(n, (t, cs.node))
                 if self.may_raise(t) and not handlers_around(fi, cs.node):
                     r_nodes.setdefault(n, (t, cs.node))
@@ -556,6 +561,10 @@ def run(rep: Report) -> None:
     prefix_late = handles.get("Prefix", False)
     interned_construction(rep, prog, resolver, summ, handles)
     key_directed_interning(rep, prog, handles)
+    from .c02 import key_is_stored
+    rep.rule("R02.13", "an interned object sits under the value of its own key attribute (shared with C02): Dimension.define re-keys the table by it, and a "
+             "KeyError half-way leaves the new name bound and half the table widened", floor=2)
+    key_is_stored(rep, prog, "R02.13")
     entries = ["systems"] + (shipped_modules() if rep.tier == "thorough" else [])
     seen_keys: Set[str] = set()
     for entry in entries:
